@@ -136,6 +136,9 @@ func IteU64(c bool, a, b uint64) uint64 {
 // StrEq compares two strings without forking.
 func StrEq(a, b string) bool { return a == b }
 
+// Counter reads an engine counter (e.g. "cond.signals": sync.Cond Broadcast/Signal calls so far); natively 0.
+func Counter(name string) int { return 0 }
+
 // Assume restricts the inputs considered; a false assumption ends the path.
 func Assume(c bool) {
 	if !c {
